@@ -254,7 +254,8 @@ func (g *c02Gen) next(prefix string) *c02Op {
 		"assoc-in-empty", "assoc-in-empty2", "update-in-empty", "unbase64", "base64-roundtrip",
 		"def-fn-with-meta", "json-decode-proto-map", "json-decode-proto-vec", "merge-small-big", "fn-meta-shared",
 		"first-nested", "nth-nested", "get-in-nested", "get-nested", "vals", "keys", "apply-vector", "apply-list", "apply-hash-map",
-		"json-decode-binary", "error-string-of", "str-of-error", "binary-of-str", "let-two-futures", "let-three-futures"}
+		"json-decode-binary", "error-string-of", "str-of-error", "binary-of-str", "let-two-futures", "let-three-futures",
+		"swap-rest-retain-retry", "swap-rest-retain-retry2"}
 	weights := []int{8, 3, 2, 6, 2, 5, 2, 2, 2, 2, 1, 1, 1, 3, 3, 2, 1, 1, 1, 1, 1, 1, 2, 1, 1, 2, 3, 2, 1, 4, 3, 2, 2, 2, 2,
 		3, 2, 2, 3, 2, 2, 2, 2,
 		2, 1, 1,
@@ -264,7 +265,8 @@ func (g *c02Gen) next(prefix string) *c02Op {
 		2, 1, 1, 2, 1,
 		2, 2, 1, 2, 1,
 		2, 2, 2, 1, 1, 1, 2, 1, 1,
-		2, 2, 1, 1, 3, 2}
+		2, 2, 1, 1, 3, 2,
+		2, 1}
 	kind := kinds[g.tp.Weighted(LaneWork, weights)]
 	var src, typ string
 	expectParent := ""
@@ -536,6 +538,14 @@ func (g *c02Gen) next(prefix string) *c02Op {
 		src, typ = "(let [acc (atom [])] (map (fn [& xs] (do (swap! acc conj xs) (snap! @acc) xs)) "+seq().Name+"))", "list"
 	case "apply-rest-retain":
 		src, typ = "(let [acc (atom [])] (do (apply (fn [& xs] (do (swap! acc conj xs) (snap! @acc))) "+seq().Name+") (apply (fn [& xs] (do (swap! acc conj xs) (snap! @acc))) "+seq().Name+") @acc))", "vec"
+	case "swap-rest-retain-retry":
+		// the argument list of an update function is kept; swap! then applies the function again (its first
+		// application invalidated the value it had read): what was kept the first time must not change
+		v := g.pick("vec", "list", "map")
+		parents = append(parents, v)
+		src, typ = "(let [acc (atom []) a (atom 0) n (atom 0)] (do (swap! a (fn [& all] (do (swap! acc conj all) (snap! @acc) (if (< @n 1) (do (swap! n inc) (reset! a "+k+"))) (first all))) "+v.Name+") @acc))", "vec"
+	case "swap-rest-retain-retry2":
+		src, typ = "(let [acc (atom []) a (atom ()) n (atom 0)] (do (swap! a (fn [& all] (do (swap! acc conj all) (snap! @acc) (if (< @n 2) (do (swap! n inc) (reset! a (list "+k+" @n)))) (first all))) "+seq().Name+" "+k+") (conj @acc @a)))", "vec"
 	case "reduce-rest-retain":
 		src, typ = "(let [acc (atom [])] (reduce (fn [& xs] (do (swap! acc conj xs) (snap! @acc) (first xs))) 0 "+seq().Name+"))", "other"
 	}
